@@ -110,7 +110,8 @@ def main(argv=None) -> int:
             s["seed"] = seed
             s["prop"] = prop
         if args.only:
-            shards = [s for s in shards if args.only in s["id"]]
+            only = args.only
+            shards = [s for s in shards if (s["id"].startswith(only[1:]) if only.startswith("^") else only in s["id"])]
     timeout = float(getattr(mod, "SHARD_TIMEOUT", {}).get(tier, 1500))
     os.makedirs(os.path.join(ROOT, ".work"), exist_ok=True)
     reports = []
